@@ -37,6 +37,17 @@ s=s.replace(blk,"").replace(old,old+blk)'
 run merge-rule-inverted xtp/src/libxtp/job.cc 's=s.replace("job_ext.getHost() != thisHost","job_ext.getHost() == thisHost")'
 run restart-host-vs-status $PO 's=s.replace("restart_hosts_.count(metajit_->getHost())","restart_hosts_.count(metajit_->getStatusStr())")'
 run assigned-job-without-host $PO 's=s.replace("      metajit_->setHost(GenerateHost());\n","")'
+run init-release-before-backup $PO 'old="""  // RELEASE PROGRESS FILE
+  this->ReleaseProgFile(thread);
+  return;
+}
+
+// REGISTER"""
+assert old in s
+s=s.replace(old,"""  return;
+}
+
+// REGISTER""").replace("  VOTCA_VERIF_EVENT(203, this, 1);  // loaded\n","  VOTCA_VERIF_EVENT(203, this, 1);  // loaded\n  this->ReleaseProgFile(thread);\n")'
 echo "--- negative controls: property-preserving changes, expected rc=0 and drift>0"
 run NEG-cache-off-by-one-is-not-a-clause-of-C10 $PO 's=s.replace("while (int(jobsToProc_.size()) < cacheSize) {","while (int(jobsToProc_.size()) <= cacheSize) {")'
 run NEG-assign-before-backup $PO 'a=s.index("  // ASSIGN NEW JOBS IF AVAILABLE")
